@@ -37,6 +37,41 @@ def make_fd():
   return fedjax.InMemoryFederatedData(table)
 
 
+_PRISTINE = {}
+
+
+def _forget_module_state(mods):
+  """Puts the module-level variables of `mods` back to their import-time values: names bound later are removed,
+  rebound names are restored, plain containers (dict/list/set - the usual memo tables) are restored from a deep copy
+  taken at first use, functools caches are cleared."""
+  import copy
+  for m in mods:
+    if m.__name__ not in _PRISTINE:
+      snap = {}
+      for k, v in vars(m).items():
+        if isinstance(v, (dict, list, set)) and not k.startswith('__'):
+          try:
+            snap[k] = ('copy', copy.deepcopy(v))
+            continue
+          except Exception:  # pylint: disable=broad-except
+            pass
+        snap[k] = ('ref', v)
+      _PRISTINE[m.__name__] = snap
+      continue
+    snap = _PRISTINE[m.__name__]
+    for k in [k for k in vars(m) if k not in snap and not k.startswith('__')]:
+      delattr(m, k)
+    for k, (how, v) in snap.items():
+      if k.startswith('__'):
+        continue
+      setattr(m, k, copy.deepcopy(v) if how == 'copy' else v)
+      if how == 'ref' and hasattr(v, 'cache_clear'):
+        try:
+          v.cache_clear()
+        except Exception:  # pylint: disable=broad-except
+          pass
+
+
 class Harness:
   """Builds the experiment pieces; every run gets fresh sampler objects."""
 
@@ -49,20 +84,7 @@ class Harness:
     self.kind = algo_kind
     self.fe = fe
     harness = self
-
-    class HashEval(fe.EvaluationFn):
-      def __init__(self, tag):
-        self.tag = tag
-
-      def __call__(self, state, round_num):
-        harness.inj.effect('eval', '%s@%d' % (self.tag, round_num))
-        return {'hash': harness.state_digest(state), 'round': round_num, 'tag': self.tag}
-
-    class TrainEval(fe.TrainClientsEvaluationFn):
-      def __call__(self, state, round_num, train_clients):
-        harness.inj.effect('eval', 'train@%d' % round_num)
-        return {'n': len(train_clients)}
-    self.HashEval, self.TrainEval = HashEval, TrainEval
+    self._eval_classes(fe)
     if algo_kind == 'toy':
       def init():
         return {'h': 0, 'hist': []}
@@ -99,6 +121,24 @@ class Harness:
     self.ref_final = self.state_digest(self.ref_states[cfg['num_rounds']])
     self.ref_tsv = 'hash\tround\ttag\n%s\t%d\tfinal' % (self.ref_final, cfg['num_rounds'])
 
+  def _eval_classes(self, fe):
+    """Evaluation functions as subclasses of the (possibly re-executed) module's base classes."""
+    harness = self
+
+    class HashEval(fe.EvaluationFn):
+      def __init__(self, tag):
+        self.tag = tag
+
+      def __call__(self, state, round_num):
+        harness.inj.effect('eval', '%s@%d' % (self.tag, round_num))
+        return {'hash': harness.state_digest(state), 'round': round_num, 'tag': self.tag}
+
+    class TrainEval(fe.TrainClientsEvaluationFn):
+      def __call__(self, state, round_num, train_clients):
+        harness.inj.effect('eval', 'train@%d' % round_num)
+        return {'n': len(train_clients)}
+    self.HashEval, self.TrainEval = HashEval, TrainEval
+
   def state_digest(self, state):
     import jax
     leaves = jax.tree_util.tree_leaves(state)
@@ -110,6 +150,9 @@ class Harness:
     import tensorflow as real_tf
     from fedjax.core import serialization
     from fedjax.training import checkpoint, federated_experiment as fe, logging as flog
+    # every call is a NEW process in reality (the previous one may have crashed): whatever the training modules keep in
+    # module-level variables is gone - their globals are put back to what they were right after import.
+    _forget_module_state((serialization, checkpoint, flog, fe))
     self.inj = inj = (injector_cls or fault.Injector)(flt)
     proxy = fault.TFProxy(real_tf, inj)
     sampler = fedjax.client_samplers.UniformGetClientSampler(self.fd, 2, seed=3)
@@ -294,6 +337,9 @@ def plan(ctx):
               'until no new state appears (fixpoint); distinct = reachable directory states; non-trivial = checkpointing on')
   ctx.assumptions += ['crash = process death; a file holds the bytes written before the crash (every prefix tried), or - for handles still open at the crash - only what had been flushed/closed (crash_lose: user-space buffers die with the process)',
                       'tf.summary is stubbed (no TensorBoard in the sandbox); event files are not observed',
+                      'a restart is modelled in-process: fresh sampler/config objects per call and the module-level variables '
+                      'of the training/serialization modules reset to their import-time values; state hidden elsewhere '
+                      '(other modules, class attributes) would survive',
                       'round-deterministic toy algorithm (state = hash chain over cohorts) with the real '
                       'UniformGetClientSampler; thorough adds real FedAvg']
   cs = [{'cfg': c, 'stray': c['ckpt'] == 1 and c['num_rounds'] == 2, 'all_prefixes_depth': 1 if th else 0}
